@@ -56,9 +56,10 @@ type Config struct {
 	TLS       *tls.Config       // used for STARTTLS / implicit TLS
 	Implicit  bool              // TLS from the first byte
 	Auth      func(state *tls.ConnectionState) AuthHandler
-	RawLines  bool // record every line read in command mode as raw bytes
-	HSGarbage bool // answer the ClientHello with bytes that are not TLS
-	HSStall   bool // never answer the ClientHello
+	RawLines  bool                 // record every line read in command mode as raw bytes
+	Jitter    func() time.Duration // latency before every reply (varies the schedule of concurrent clients)
+	HSGarbage bool                 // answer the ClientHello with bytes that are not TLS
+	HSStall   bool                 // never answer the ClientHello
 	// CredScan reports whether a cleartext line carries a password-revealing payload.
 	CredScan func(line string) bool
 	Greeting time.Duration // how long to listen for early bytes before greeting
@@ -87,11 +88,12 @@ func New(cfg Config, r *rec.Recorder) *Server {
 func (s *Server) Go(c net.Conn) {
 	s.mu.Lock()
 	s.conns = append(s.conns, c)
+	id := len(s.conns)
 	s.mu.Unlock()
 	s.wg.Add(1)
 	go func() {
 		defer s.wg.Done()
-		s.serve(c)
+		s.serve(c, id)
 	}()
 }
 
@@ -163,12 +165,18 @@ func ReplyFor(f Fault) (int, string, string) {
 }
 
 type session struct {
+	id   int // connection number of this server, starting at 1
 	s    *Server
 	c    net.Conn
 	br   *bufio.Reader
 	enc  bool
 	last int // message of the latest MAIL command
 	ehlo int // number of EHLO commands seen
+}
+
+// emit records an event of this connection.
+func (x *session) emit(kind string, kv ...interface{}) {
+	x.s.rec.Emit(kind, append(kv, "conn", x.id)...)
 }
 
 func (x *session) write(str string) error {
@@ -194,12 +202,15 @@ func (x *session) readLine() (string, error) {
 
 // stall blocks until Release; the connection stays open and silent.
 func (x *session) stall() {
-	x.s.rec.Emit("stall")
+	x.emit("stall")
 	<-x.s.stallCh
 }
 
 // reply answers verb (key k); returns false when the connection is finished.
 func (x *session) reply(k Key, okText string, caps []string) bool {
+	if x.s.cfg.Jitter != nil {
+		time.Sleep(x.s.cfg.Jitter())
+	}
 	f, bad := x.s.cfg.Faults[k]
 	if !bad {
 		code := OkCode(k.V)
@@ -213,26 +224,26 @@ func (x *session) reply(k Key, okText string, caps []string) bool {
 				}
 				fmt.Fprintf(&b, "%d%s%s\r\n", code, sep, cp)
 			}
-			x.s.rec.Emit("reply", "code", code, "cls", "ok", "esc", "", "caps", capNames(caps))
+			x.emit("reply", "code", code, "cls", "ok", "esc", "", "caps", capNames(caps))
 			return x.write(b.String()) == nil
 		}
-		x.s.rec.Emit("reply", "code", code, "cls", "ok", "esc", "", "caps", []string{})
+		x.emit("reply", "code", code, "cls", "ok", "esc", "", "caps", []string{})
 		return x.write(fmt.Sprintf("%d %s\r\n", code, okText)) == nil
 	}
 	switch f.Class {
 	case "drop":
-		x.s.rec.Emit("drop")
+		x.emit("drop")
 		_ = x.c.Close()
 		return false
 	case "stall":
 		x.stall()
 		return false
 	case "garbage":
-		x.s.rec.Emit("reply", "code", 0, "cls", "garbage", "esc", "", "caps", []string{})
+		x.emit("reply", "code", 0, "cls", "garbage", "esc", "", "caps", []string{})
 		return x.write("\x16\x03\x01 this is not an SMTP reply\r\n") == nil
 	}
 	code, text, esc := ReplyFor(f)
-	x.s.rec.Emit("reply", "code", code, "cls", f.Class, "esc", esc, "caps", []string{})
+	x.emit("reply", "code", code, "cls", f.Class, "esc", esc, "caps", []string{})
 	return x.write(fmt.Sprintf("%d %s\r\n", code, text)) == nil
 }
 
@@ -266,12 +277,12 @@ func (x *session) serveCmds() {
 	for {
 		line, err := x.readLine()
 		if err != nil {
-			s.rec.Emit("sclose", "indata", false, "partial", len(line))
+			x.emit("sclose", "indata", false, "partial", len(line))
 			return
 		}
 		raw := strings.TrimRight(line, "\r\n")
 		if s.cfg.RawLines {
-			s.rec.Emit("rawline", "b", lineBytes(line), "crlf", strings.HasSuffix(line, "\r\n"))
+			x.emit("rawline", "b", lineBytes(line), "crlf", strings.HasSuffix(line, "\r\n"))
 		}
 		verb := strings.ToUpper(strings.SplitN(raw, " ", 2)[0])
 		arg := ""
@@ -312,7 +323,7 @@ func (x *session) serveCmds() {
 		if s.cfg.CredScan != nil {
 			cred = s.cfg.CredScan(raw)
 		}
-		s.rec.Emit("cmd", "verb", v, "m", m, "r", r, "params", params, "enc", x.enc, "cred", cred,
+		x.emit("cmd", "verb", v, "m", m, "r", r, "params", params, "enc", x.enc, "cred", cred,
 			"mech", mech, "wf", wf, "line", clip(raw))
 		key := Key{v, m, r}
 		if v != "MAIL" && v != "RCPT" && v != "EHLO" && v != "HELO" {
@@ -366,7 +377,7 @@ func (x *session) serveCmds() {
 				return
 			}
 		case "OTHER":
-			s.rec.Emit("reply", "code", 500, "cls", "p5", "esc", "", "caps", []string{})
+			x.emit("reply", "code", 500, "cls", "p5", "esc", "", "caps", []string{})
 			if x.write("500 unrecognised command\r\n") != nil {
 				return
 			}
@@ -402,7 +413,7 @@ func (x *session) readData() bool {
 	for {
 		line, err := x.readLine()
 		if err != nil {
-			s.rec.Emit("sclose", "indata", true, "partial", content.Len()+len(line))
+			x.emit("sclose", "indata", true, "partial", content.Len()+len(line))
 			return false
 		}
 		if line == ".\r\n" || line == ".\n" {
@@ -414,7 +425,7 @@ func (x *session) readData() bool {
 		content.WriteString(line)
 	}
 	cls := Classify(content.Bytes(), s.cfg.Expected, x.last)
-	s.rec.Emit("eod", "m", x.last, "content", cls, "len", content.Len())
+	x.emit("eod", "m", x.last, "content", cls, "len", content.Len())
 	return x.reply(Key{"EOD", x.last, 0}, "queued", nil)
 }
 
@@ -453,7 +464,7 @@ func (x *session) startTLS() bool {
 		_ = x.c.SetReadDeadline(time.Now().Add(10 * time.Second))
 		_, _ = x.br.Peek(1)
 		_ = x.write("this is not a TLS record at all\r\n")
-		x.s.rec.Emit("tls", "ok", false)
+		x.emit("tls", "ok", false)
 		// drain; anything that is not a TLS record is recorded as cleartext
 		var seen []byte
 		buf := make([]byte, 4096)
@@ -468,7 +479,7 @@ func (x *session) startTLS() bool {
 			}
 		}
 		x.clearLines(seen)
-		x.s.rec.Emit("sclose", "indata", false, "partial", 0)
+		x.emit("sclose", "indata", false, "partial", 0)
 		return false
 	}
 	tap := &tapConn{Conn: x.c}
@@ -476,7 +487,7 @@ func (x *session) startTLS() bool {
 	_ = tc.SetDeadline(time.Now().Add(10 * time.Second))
 	err := tc.Handshake()
 	_ = tc.SetDeadline(time.Time{})
-	x.s.rec.Emit("tls", "ok", err == nil)
+	x.emit("tls", "ok", err == nil)
 	if err != nil {
 		// bytes that were sent instead of a ClientHello are cleartext: record them as commands
 		x.clearLines(tap.seen)
@@ -519,7 +530,7 @@ func (x *session) clearLines(b []byte) {
 			verb = "OTHER"
 		}
 		cred := x.s.cfg.CredScan != nil && x.s.cfg.CredScan(raw)
-		x.s.rec.Emit("cmd", "verb", verb, "m", 0, "r", 0, "params", []string{}, "enc", false, "cred", cred,
+		x.emit("cmd", "verb", verb, "m", 0, "r", 0, "params", []string{}, "enc", false, "cred", cred,
 			"mech", "", "wf", true, "line", clip(raw), "unexpected_clear", true)
 	}
 }
@@ -549,7 +560,7 @@ func (x *session) auth(arg string) bool {
 		if _, bad := s.cfg.Faults[key]; bad {
 			return x.reply(key, "", nil)
 		}
-		s.rec.Emit("reply", "code", 504, "cls", "p5", "esc", "", "caps", []string{})
+		x.emit("reply", "code", 504, "cls", "p5", "esc", "", "caps", []string{})
 		return x.write("504 unrecognised authentication type\r\n") == nil
 	}
 	h := s.cfg.Auth(x.tlsState())
@@ -568,13 +579,13 @@ func (x *session) auth(arg string) bool {
 			if f.Class != "mal" {
 				return x.reply(key, "", nil)
 			}
-			s.rec.Emit("reply", "code", 334, "cls", "mal", "esc", "", "caps", []string{})
+			x.emit("reply", "code", 334, "cls", "mal", "esc", "", "caps", []string{})
 			if x.write("334 %%%this-is-not-base64%%%\r\n") != nil {
 				return false
 			}
 		} else {
 			step := h.Step(j, mech, msg, has)
-			s.rec.Emit("reply", "code", step.Code, "cls", replyClass(step.Code), "esc", "", "caps", []string{})
+			x.emit("reply", "code", step.Code, "cls", replyClass(step.Code), "esc", "", "caps", []string{})
 			if x.write(fmt.Sprintf("%d %s\r\n", step.Code, step.Text)) != nil {
 				return false
 			}
@@ -584,15 +595,15 @@ func (x *session) auth(arg string) bool {
 		}
 		line, err := x.readLine()
 		if err != nil {
-			s.rec.Emit("sclose", "indata", false, "partial", len(line))
+			x.emit("sclose", "indata", false, "partial", len(line))
 			return false
 		}
 		raw := strings.TrimRight(line, "\r\n")
 		if s.cfg.RawLines {
-			s.rec.Emit("rawline", "b", lineBytes(line), "crlf", strings.HasSuffix(line, "\r\n"))
+			x.emit("rawline", "b", lineBytes(line), "crlf", strings.HasSuffix(line, "\r\n"))
 		}
 		if raw == "*" {
-			s.rec.Emit("cmd", "verb", "ABORT", "m", 0, "r", 0, "params", []string{}, "enc", x.enc,
+			x.emit("cmd", "verb", "ABORT", "m", 0, "r", 0, "params", []string{}, "enc", x.enc,
 				"cred", false, "mech", "", "wf", strings.HasSuffix(line, "\r\n"), "line", "*")
 			return x.reply(Key{"ABORT", 0, 0}, "", nil)
 		}
@@ -600,7 +611,7 @@ func (x *session) auth(arg string) bool {
 		if s.cfg.CredScan != nil {
 			cred = s.cfg.CredScan(raw)
 		}
-		s.rec.Emit("cmd", "verb", "AUTHRESP", "m", 0, "r", j+1, "params", []string{}, "enc", x.enc,
+		x.emit("cmd", "verb", "AUTHRESP", "m", 0, "r", j+1, "params", []string{}, "enc", x.enc,
 			"cred", cred, "mech", "", "wf", strings.HasSuffix(line, "\r\n"), "line", clip(raw))
 		msg, _ = base64.StdEncoding.DecodeString(raw)
 		has = true
@@ -608,14 +619,14 @@ func (x *session) auth(arg string) bool {
 	}
 }
 
-func (s *Server) serve(c net.Conn) {
-	x := &session{s: s, c: c}
+func (s *Server) serve(c net.Conn, id int) {
+	x := &session{s: s, c: c, id: id}
 	if s.cfg.Implicit {
 		tc := tls.Server(c, s.cfg.TLS)
 		_ = tc.SetDeadline(time.Now().Add(10 * time.Second))
 		err := tc.Handshake()
 		_ = tc.SetDeadline(time.Time{})
-		s.rec.Emit("tls", "ok", err == nil)
+		x.emit("tls", "ok", err == nil)
 		if err != nil {
 			_ = c.Close()
 			return
@@ -632,7 +643,7 @@ func (s *Server) serve(c net.Conn) {
 	early := perr == nil
 	if perr != nil {
 		if ne, ok := perr.(net.Error); !ok || !ne.Timeout() {
-			s.rec.Emit("sclose", "indata", false, "partial", 0)
+			x.emit("sclose", "indata", false, "partial", 0)
 			return
 		}
 	}
@@ -640,25 +651,25 @@ func (s *Server) serve(c net.Conn) {
 	if f, bad := s.cfg.Faults[gk]; bad {
 		switch f.Class {
 		case "drop":
-			s.rec.Emit("drop")
+			x.emit("drop")
 			return
 		case "stall":
 			x.stall()
 			return
 		case "garbage":
-			s.rec.Emit("greet", "code", 0, "cls", "garbage", "early", early)
+			x.emit("greet", "code", 0, "cls", "garbage", "early", early)
 			if x.write("\x16\x03\x01 not a greeting\r\n") != nil {
 				return
 			}
 		default:
 			code, text, _ := ReplyFor(f)
-			s.rec.Emit("greet", "code", code, "cls", f.Class, "early", early)
+			x.emit("greet", "code", code, "cls", f.Class, "early", early)
 			if x.write(fmt.Sprintf("%d %s\r\n", code, text)) != nil {
 				return
 			}
 		}
 	} else {
-		s.rec.Emit("greet", "code", 220, "cls", "ok", "early", early)
+		x.emit("greet", "code", 220, "cls", "ok", "early", early)
 		if x.write("220 refsmtp.test ESMTP ready\r\n") != nil {
 			return
 		}
